@@ -206,7 +206,9 @@ class Deployment:
     def make_joker(self, pool, rng):
         import thejoker as tj
 
-        j = tj.TheJoker(self.world.prior, pool=pool, rng=rng, tempfile_path=self.world.tmpdir)
+        rel = self.program["config"].get("joker_tempfile_path_rel")
+        tpath = os.path.join(self.workdir, rel) if rel else self.world.tmpdir  # may be a directory that does not exist yet
+        j = tj.TheJoker(self.world.prior, pool=pool, rng=rng, tempfile_path=tpath)
         ov = self.program["config"].get("ll_override")
         if ov:
             from . import llproxy
@@ -311,6 +313,7 @@ class Deployment:
             else:
                 raise ValueError("unknown op %r" % kind)
             rec["out"] = capture(out)
+            rec["live"] = out  # the object the caller holds: it must not change when LATER calls are made
             rec["raised"] = None
         except (Exception, simpool.PoolWouldHang) as e:  # noqa: BLE001
             rec["out"] = None
@@ -361,6 +364,21 @@ class Deployment:
                     cont[k % len(cont)] = new_items[k % len(new_items)]
                 else:
                     raise ValueError("data %d is a bare RVData: nothing to mutate in place" % op.get("data", 0))
+                from .world import snapshot_data
+
+                w.data_ref[op.get("data", 0)] = snapshot_data(cont)  # the USER changed it: new reference
+                out = None
+            elif kind == "helper_setup_mcmc":
+                # the user prepares an MCMC run in between (documented workflow): needs posterior samples and a model
+                # context; done on a brand-new JokerPrior so the shared cached prior's pymc model is not touched
+                from .world import get_prior
+
+                pr = get_prior(self.program["config"]["prior"], fresh=True)
+                jm = tj.TheJoker(pr, rng=recgen.make(op.get("rng_seed", 3)))
+                data_ = w.datasets[op.get("data", 0)]
+                smp = jm.rejection_sample(data_, w.libraries[op.get("lib", 0)].samples, max_posterior_samples=2, in_memory=True)
+                with pr.model:
+                    jm.setup_mcmc(data_, smp)
                 out = None
             elif kind == "helper_roundtrip":
                 h = self.helpers[name]
@@ -395,6 +413,21 @@ class Deployment:
         self.log.add("op-end", kind, None, _digestable(rec["out"]) if rec["raised"] is None else {"raised": rec["raised"][0][0]})
         self.history.append(rec)
         return rec
+
+    def results_changed_after_return(self):
+        """Ops whose returned object no longer holds what it held when it was returned (a buffer reused by a later call)."""
+        bad = []
+        for rec in self.history:
+            if rec.get("live") is None or rec.get("out") is None:
+                continue
+            try:
+                now = tape.digest_obj(_digestable(capture(rec["live"])))
+                then = tape.digest_obj(_digestable(rec["out"]))
+            except Exception:  # noqa: BLE001
+                continue
+            if now != then:
+                bad.append(rec)
+        return bad
 
     def draws(self, rec):
         return self.record.draws[rec["draw_lo"] : rec["draw_hi"]]
